@@ -57,7 +57,7 @@ impl OutputFormat for Artworx {
             return Err(SavingError::Only8x16FontsSupported.into());
         }
 
-        if let Some(font) = buf.get_font(fonts[0]) {
+        if let Some(font) = buf.get_font(fonts.first().copied().unwrap_or(0)) {
             result.extend(font.convert_to_u8_data());
         } else {
             return Err(SavingError::NoFontFound.into());
@@ -87,6 +87,8 @@ impl OutputFormat for Artworx {
         result.file_name = Some(file_name.into());
         result.set_sauce(sauce_opt, true);
         result.set_width(80);
+        // the fresh 80x25 layer has 25 allocated rows; the picture has as many rows as the file has data for
+        result.layers[0].lines.clear();
         result.buffer_type = BufferType::CP437;
         result.palette_mode = crate::PaletteMode::Free16;
         result.ice_mode = IceMode::Ice;
